@@ -119,6 +119,12 @@ Theorem C08_reads_one_per_hop : forall BNH m r raw seg,
 Proof. exact traverse_from_reads_one_per_hop. Qed.
 Print Assumptions C08_reads_one_per_hop.
 
+(* hence never more than |segment| + 2 reads, whatever the database holds (malformed nodes included) *)
+Theorem C08_reads_bound : forall BNH m r raw seg,
+  (length (traverse_from_reads BNH (traverse_fuel seg) raw seg (plain m r)) <= S (S (length seg)))%nat.
+Proof. exact traverse_from_reads_bound. Qed.
+Print Assumptions C08_reads_bound.
+
 (* ... and that list really is everything the traversal reads: on any other database that agrees with this one
    at the listed keys (e.g. one from which every other entry has been deleted), traverse_from returns the same
    node / raises the same exception, and looks up the same keys *)
